@@ -181,3 +181,159 @@ Example C20_text_example :
                     && negb (pc_text_canonical fs [] (c20_b t)))
           ["/srv/upd/in"; "/srv/ulnk/a.mrt"; "/srv/upd/sub/../a.mrt"; "/srv/upd//a.mrt"] = true.
 Proof. vm_compute. repeat split; reflexivity. Qed.
+
+(* ================================================================ the tree changes while the unit runs
+   A history is any list of events: a change of the tree ([EFs]: create, remove,
+   rename, re-point a symbolic link - any of them at, above or below the
+   configured directory), a (re)start of the processor with an update_path
+   ([ENew]) and requests ([EReq]). [pc_run] gives the answers in order,
+   [pc_after] the tree and the configuration a history leads to. The only thing
+   the events may not do is rename, remove or replace the working directory of
+   the process or one of its ancestors ([pc_ev_spares]). *)
+Local Close Scope string_scope.
+
+(* the k-th answer of a history is the answer of process_request in the tree AS IT IS THEN *)
+Theorem C20_history_answer_is_current : forall cwd api s pre rq post,
+  nth_error (pc_run cwd api s (pre ++ EReq rq :: post)) (pc_requests pre) =
+  Some (pc_handle (fst (pc_after s pre)) cwd api (snd (pc_after s pre)) rq).
+Proof. exact pc_run_nth. Qed.
+Print Assumptions C20_history_answer_is_current.
+
+(* ... so what happened earlier does not matter: histories that lead to the same
+   tree and configuration get the same answer *)
+Theorem C20_history_only_current_tree_matters : forall cwd api s1 s2 pre1 pre2 rq post1 post2,
+  pc_after s1 pre1 = pc_after s2 pre2 ->
+  nth_error (pc_run cwd api s1 (pre1 ++ EReq rq :: post1)) (pc_requests pre1) =
+  nth_error (pc_run cwd api s2 (pre2 ++ EReq rq :: post2)) (pc_requests pre2).
+Proof. exact pc_run_only_current. Qed.
+Print Assumptions C20_history_only_current_tree_matters.
+
+(* The property over all histories: whatever was enqueued for a request lies
+   under what the configured directory resolves to AT THE TIME OF THAT REQUEST
+   (both are nodes of the current tree that are no symbolic links, the second
+   reached from the first through real directory entries only). *)
+Theorem C20_history_confined : forall cwd api fs0 upd0 pre rq post st enq p,
+  pc_dir_at fs0 [] -> pc_dir_at fs0 cwd -> Forall (pc_ev_spares cwd) pre ->
+  nth_error (pc_run cwd api (fs0, upd0) (pre ++ EReq rq :: post)) (pc_requests pre) = Some (Some (st, enq)) ->
+  In p enq ->
+  exists d dir k nd n,
+    snd (pc_after (fs0, upd0) pre) = Some d /\
+    pc_canon (fst (pc_after (fs0, upd0) pre)) cwd d = inr dir /\ p = dir ++ k /\
+    pc_descend (fst (pc_after (fs0, upd0) pre)) dir = Some nd /\ pc_is_link nd = false /\
+    pc_descend nd k = Some n /\ pc_is_link n = false.
+Proof. exact pc_history_confined. Qed.
+Print Assumptions C20_history_confined.
+
+(* a name inside the CURRENT resolution of the configured directory is accepted ... *)
+Theorem C20_history_inside_accepted : forall cwd api s pre rq post d f dir k,
+  pc_to_queue api rq ->
+  snd (pc_after s pre) = Some d ->
+  pc_get_file (rq_query rq) = PExact f -> pc_is_abs f = false ->
+  pc_canon (fst (pc_after s pre)) cwd d = inr dir ->
+  pc_canon (fst (pc_after s pre)) cwd (pc_push (pc_render dir) f) = inr (dir ++ k) ->
+  nth_error (pc_run cwd api s (pre ++ EReq rq :: post)) (pc_requests pre) =
+  Some (Some (pc_status (rq_mode rq), [dir ++ k])).
+Proof. exact pc_history_inside_accepted. Qed.
+Print Assumptions C20_history_inside_accepted.
+
+(* ... one that resolves outside it (for instance into what the directory USED to be), or not at all, is refused *)
+Theorem C20_history_outside_rejected : forall cwd api s pre rq post d f dir,
+  pc_to_queue api rq ->
+  snd (pc_after s pre) = Some d ->
+  pc_get_file (rq_query rq) = PExact f ->
+  pc_canon (fst (pc_after s pre)) cwd d = inr dir ->
+  (forall full, pc_canon (fst (pc_after s pre)) cwd (pc_push (pc_render dir) f) = inr full -> ~ exists k, full = dir ++ k) ->
+  nth_error (pc_run cwd api s (pre ++ EReq rq :: post)) (pc_requests pre) = Some (Some (400, [])).
+Proof. exact pc_history_outside_rejected. Qed.
+Print Assumptions C20_history_outside_rejected.
+
+(* the text on the queue is canonical in the tree of the moment, whatever the tree went through *)
+Theorem C20_history_text_is_canonical : forall cwd api fs0 upd0 pre rq post st enq p,
+  pc_dir_at fs0 [] -> pc_dir_at fs0 cwd -> pc_nonul_names fs0 -> Forall (pc_ev_spares cwd) pre ->
+  nth_error (pc_run cwd api (fs0, upd0) (pre ++ EReq rq :: post)) (pc_requests pre) = Some (Some (st, enq)) ->
+  In p enq ->
+  pc_observe (fst (pc_after (fs0, upd0) pre)) cwd p = (inr p, true).
+Proof. exact pc_history_text_canonical. Qed.
+Print Assumptions C20_history_text_is_canonical.
+
+(* the invariants behind it: no operation makes the root or a spared directory
+   anything but a directory, none brings a NUL byte into a name *)
+Theorem C20_tree_ops_keep_root_and_cwd : forall o fs cwd,
+  pc_op_spares cwd o -> pc_dir_at fs [] -> pc_dir_at fs cwd ->
+  pc_dir_at (pc_apply o fs) [] /\ pc_dir_at (pc_apply o fs) cwd.
+Proof. exact pc_apply_dirs. Qed.
+Print Assumptions C20_tree_ops_keep_root_and_cwd.
+
+Theorem C20_tree_ops_keep_names_nul_free : forall o fs, pc_nonul_names fs -> pc_nonul_names (pc_apply o fs).
+Proof. exact pc_apply_nonul. Qed.
+Print Assumptions C20_tree_ops_keep_names_nul_free.
+
+(* what the operations do: the named entry changes as said, every path that is
+   neither above nor below it names what it named before *)
+Theorem C20_repoint_spec : forall fs p t0 t,
+  pc_path_valid p = true -> pc_target_valid t = true -> pc_descend fs p = Some (PLink t0) ->
+  pc_descend (pc_apply (ORepoint p t) fs) p = Some (PLink t) /\
+  forall q, pc_is_prefix p q = false -> pc_is_prefix q p = false ->
+            pc_descend (pc_apply (ORepoint p t) fs) q = pc_descend fs q.
+Proof. exact pc_apply_repoint. Qed.
+Print Assumptions C20_repoint_spec.
+
+Theorem C20_create_spec : forall fs p k,
+  pc_path_valid p = true -> pc_kind_valid k = true -> pc_parent_is_dir fs p = true -> pc_descend fs p = None ->
+  pc_descend (pc_apply (OCreate p k) fs) p = Some (pc_node_of_kind k) /\
+  forall q, pc_is_prefix p q = false -> pc_is_prefix q p = false ->
+            pc_descend (pc_apply (OCreate p k) fs) q = pc_descend fs q.
+Proof. exact pc_apply_create. Qed.
+Print Assumptions C20_create_spec.
+
+Theorem C20_remove_spec : forall fs p n,
+  pc_path_valid p = true -> pc_descend fs p = Some n ->
+  pc_descend (pc_apply (ORemove p) fs) p = None /\
+  forall q, pc_is_prefix p q = false -> pc_is_prefix q p = false ->
+            pc_descend (pc_apply (ORemove p) fs) q = pc_descend fs q.
+Proof. exact pc_apply_remove. Qed.
+Print Assumptions C20_remove_spec.
+
+Theorem C20_rename_spec : forall fs p q n,
+  pc_path_valid p = true -> pc_path_valid q = true -> pc_is_prefix p q = false ->
+  pc_parent_is_dir fs q = true -> pc_descend fs q = None -> pc_descend fs p = Some n ->
+  pc_descend (pc_apply (ORename p q) fs) q = Some n /\
+  pc_descend (pc_apply (ORename p q) fs) p = None /\
+  forall r, pc_is_prefix p r = false -> pc_is_prefix r p = false ->
+            pc_is_prefix q r = false -> pc_is_prefix r q = false ->
+            pc_descend (pc_apply (ORename p q) fs) r = pc_descend fs r.
+Proof. exact pc_apply_rename. Qed.
+Print Assumptions C20_rename_spec.
+
+(* Resolving the configured directory ONCE, when the processor is built, is not
+   enough ([pc_run_once]: the counterfactual processor that keeps the resolution
+   and joins / checks against it): there is a history in which it enqueues a
+   file that is NOT under what the configured directory resolves to at that
+   moment, where the code as it is answers 400. *)
+Theorem C20_resolve_once_refuted :
+  exists cwd api fs0 upd0 pre rq post st p dir,
+    pc_dir_at fs0 [] /\ pc_dir_at fs0 cwd /\ Forall (pc_ev_spares cwd) pre /\
+    nth_error (pc_run_once cwd api fs0 (pc_new_once fs0 cwd upd0) (pre ++ EReq rq :: post)) (pc_requests pre)
+      = Some (Some (st, [p])) /\
+    (exists d, snd (pc_after (fs0, upd0) pre) = Some d /\ pc_canon (fst (pc_after (fs0, upd0) pre)) cwd d = inr dir) /\
+    ~ (exists k, p = dir ++ k) /\
+    nth_error (pc_run cwd api (fs0, upd0) (pre ++ EReq rq :: post)) (pc_requests pre) = Some (Some (400, [])).
+Proof. exact pc_resolve_once_refuted. Qed.
+Print Assumptions C20_resolve_once_refuted.
+
+(* the witness in full: /day1/one.mrt, /day2/two.mrt, /current -> day1, update_path = /current;
+   requests one.mrt, two.mrt; `current` re-pointed to day2; requests one.mrt, ../day1/one.mrt, two.mrt.
+   The code as it is follows the link; the resolve-once processor keeps serving day1 and refuses day2. *)
+Example C20_history_example :
+  let h := pc_wit_pre ++ EReq pc_wit_one :: pc_wit_post in
+  let one := [c20_b "day1"; c20_b "one.mrt"] in
+  let two := [c20_b "day2"; c20_b "two.mrt"] in
+  Forall (pc_ev_spares []) h /\
+  pc_run [] pc_wit_api (pc_wit_fs, pc_wit_upd) h
+    = [Some (200, [one]); Some (400, []); Some (400, []); Some (400, []); Some (200, [two])] /\
+  pc_run_once [] pc_wit_api pc_wit_fs (pc_new_once pc_wit_fs [] pc_wit_upd) h
+    = [Some (200, [one]); Some (400, []); Some (200, [one]); Some (200, [one]); Some (400, [])] /\
+  fst (pc_after (pc_wit_fs, pc_wit_upd) h)
+    = PDir [(c20_b "day1", PDir [(c20_b "one.mrt", PFile)]); (c20_b "day2", PDir [(c20_b "two.mrt", PFile)]);
+            (c20_b "current", PLink (c20_b "day2"))].
+Proof. split; [repeat constructor|]. vm_compute. repeat split; reflexivity. Qed.
